@@ -615,6 +615,26 @@ pub fn refill_violation(case: &RCase, log: &RunLog, m: &Modelled) -> Option<(usi
             let waiting: Vec<&&str> = conc.iter().filter(|s| first_started.get(**s).is_none_or(|i| *i >= n_ev)).collect();
             // only scenarios that do start later are certain to have been ready (fail-fast excluded above)
             let waiting: Vec<&&str> = waiting.into_iter().filter(|s| first_started.contains_key(**s)).collect();
+            // A retry *without* a delay is ready the moment its failed attempt has finished: it
+            // re-enters the queue like any other scenario and has to get a free slot as well.
+            let retry_waiting: Vec<String> = m
+                .attempts
+                .iter()
+                .filter(|a| conc.contains(&a.scenario.as_str()))
+                .filter(|a| a.finished.is_some_and(|f| f < n_ev) && attempt_failed_observed(a, log) && a.retries.is_some_and(|r| r.1 > 0))
+                .filter(|a| case.sc(&a.scenario).and_then(|s| s.retry).is_some_and(|r| r.1.is_none()))
+                .filter(|a| {
+                    let next = m.attempts.iter().find(|b| b.scenario == a.scenario && b.retries.map(|r| r.0) == a.retries.map(|r| r.0 + 1));
+                    next.is_some_and(|b| b.started.is_some_and(|i| i >= n_ev))
+                })
+                .map(|a| format!("{}#{}", a.scenario, a.retries.map_or(0, |r| r.0 + 1)))
+                .collect();
+            if !retry_waiting.is_empty() {
+                return Some((
+                    n_ev,
+                    format!("after a completion, at quiescent round {} only {in_flight} attempts are in flight (limit {limit:?}) although the undelayed retries {retry_waiting:?} of concurrent scenarios are ready and unstarted", q.round),
+                ));
+            }
             if !waiting.is_empty() {
                 return Some((
                     n_ev,
